@@ -590,7 +590,7 @@ class assert_regex(RuntimeAssertionFeedback):
 
     def condition(self, regex, text):
         """ Tests if the regex matches the text """
-        return re.search(regex.value, str(text.value)) is None
+        return re.search(unwrap_value(regex.value), str(text.value)) is None
 
 
 class assert_not_regex(RuntimeAssertionFeedback):
@@ -606,7 +606,7 @@ class assert_not_regex(RuntimeAssertionFeedback):
 
     def condition(self, regex, text):
         """ Tests if the regex does not match the text """
-        return re.search(regex.value, str(text.value)) is not None
+        return re.search(unwrap_value(regex.value), str(text.value)) is not None
 
 
 class assert_almost_equal(assert_equal):
